@@ -96,6 +96,33 @@ CHECKS["C02"] = dict(
          "Exact output differences are counted in the evidence but belong to C09/C12/C19.",
     technique="TLA+ executable specification with taint markers enumerated by TLC + exhaustive replay", ref="DESIGN.md §3 C02")
 
+CHECKS["C04"] = dict(
+    text="PongoExec.tla models executions of one compiled template as a small-step machine whose `compiled` variable no action writes; TLC "
+         "enumerates every history of up to three executions over entry point x context (incl. failing ones) and checks Isolation (equal "
+         "inputs give equal results anywhere in a history) and CompiledImmutable. The rendering function itself is uninterpreted in this "
+         "module and bound by the harness to 'compile afresh, execute once'; histories are replayed on thousands of generated and "
+         "registry-driven programs under all four TrimBlocks/LStripBlocks settings, comparing every result with the reference and the "
+         "reflective digest of everything reachable from the template with its value after compilation.",
+    note="Trusted: TLC, VerifTemplateDigest (reflection walk over all fields, future fields included), the harness. Not decided: the static "
+         "for-all-inputs clause. Excluded as the property says: clock, randomness, map order.",
+    technique="TLA+ model checking (TLC) of execution histories + history replay with reflective template digest", ref="DESIGN.md §3 C04")
+CHECKS["C05"] = dict(
+    text="PongoExec.tla's thread configuration: two executions stepping node by node through one shared compiled template (with include, "
+         "faults, all entry points); TLC visits every interleaving and checks Isolation and CompiledImmutable. PongoSched enumerates all "
+         "priority schedules; the harness forces each onto two real goroutines through the blocking gate hook placed before every node and "
+         "requires solo-equal results and an unchanged digest at every step; the same programs run gate-free with up to 16 goroutines under "
+         "Go's race detector together with FromCache/FromString/lazy include on the shared set (a race whose stack is in pongo2 is a violation).",
+    note="Trusted: TLC, gate hook, Go race detector, VerifTemplateDigest. Node-granularity interleavings; memory-level races come from the "
+         "detector, not the model. Not decided: the static every-write clause. Cache interleavings: see C20.",
+    technique="TLA+ model checking (TLC) of interleavings + forced-schedule replay + race-detector runs", ref="DESIGN.md §3 C05")
+CHECKS["C14"] = dict(
+    text="PongoExec.tla's writer part is a small-step machine per entry point (buffer, flush once, or stream; include nests a buffered "
+         "execution) with fault parameters k (k-th node fails) and w (the caller's writer refuses from its w-th Write). TLC checks Agree, "
+         "AllOrNothing, PrefixOnly, WriterErrorReturned, IncludeAtomic for every (k, w, entry, include position) and every combination is "
+         "replayed with failing catalogue functions and a failing recording writer. Fault positions are exactly the property's quantifier.",
+    note="Trusted: TLC, the harness's failing writer / failing function. Programs of 3 (quick) and 5 (thorough) nodes.",
+    technique="TLA+ model checking (TLC) with fault enumeration + exhaustive fault-injection replay", ref="DESIGN.md §3 C14")
+
 PENDING = {}
 
 def main():
